@@ -234,7 +234,10 @@ def cases(draw):
     s = draw(gen_typed.script(dict(trap_names=True, depth=2, max_asserts=2)))
     cmds, traps = add_traps(draw, s)
     picks = draw(st.lists(st.integers(0, 10**6), min_size=0, max_size=3))
-    return dict(cmds=cmds, picks=picks, traps=sorted(traps))
+    fresh_trap = draw(st.integers(0, 3)) == 0
+    if fresh_trap:
+        traps.add('fresh-name-taken')
+    return dict(cmds=cmds, picks=picks, traps=sorted(traps), fresh_trap=fresh_trap)
 
 
 def run_case(dd, case, acc, workdir, counts):
@@ -254,6 +257,20 @@ def run_case(dd, case, acc, workdir, counts):
                     acc.skip('reduced form has a non-token leaf (reported on the step that produced it)')
                     return False
             dd.smtlib.collect_information(exprs)
+            if case.get('fresh_trap'):
+                # a symbol that already carries the name a fresh variable for
+                # some node of this input would get (x<node id>__fresh)
+                ifv = dd.mutators_smtlib.IntroduceFreshVariable()
+                for n in dd.nodes.bfs(exprs):
+                    try:
+                        ok = ifv.filter(n)
+                    except Exception:  # noqa
+                        ok = False
+                    if ok:
+                        decl = dd.nodes.Node('declare-const', f'x{n.id}__fresh', 'Bool')
+                        exprs = dd.smtlib.introduce_variables(exprs, [decl])
+                        dd.smtlib.collect_information(exprs)
+                        break
             return check_proposals(dd, exprs, acc, case, counts, case['traps'])
     except guard.CpuTimeout:
         acc.skip('cpu-limit')
